@@ -1,6 +1,7 @@
 import DiscretModel.Lemmas.QueryOrder
 import DiscretModel.Lemmas.SqlCompile
 import DiscretModel.Lemmas.SqlCompileSub
+import DiscretModel.Lemmas.SqlCompileAgg
 /-
 C05 — Query results equal a direct evaluation of the query over the data.
 
@@ -388,6 +389,43 @@ example :
         (fun _ => .int 1)).map (fun j => String.ofList (jsonChars 20 j)) =
       ["{\"name\":\"ann\",\"pets\":[{\"name\":\"rex\",\"age\":7},{\"name\":\"zoe\",\"age\":3}],\"home\":{\"name\":\"h\"}}",
        "{\"name\":\"bob\",\"pets\":[{\"name\":\"tom\",\"age\":1}],\"home\":null}"] := by
+  decide
+
+/-! ### aggregate queries at the root -/
+
+/-- **C05 (compiler, aggregate queries).** `Model/SqlGenAgg.lean` models the SQL generated for a selection of
+    group-by scalar fields next to `count()`, `min(f)`, `max(f)` (`get_fields` for aggregates, `get_group_by`,
+    `get_having_filters`), `Model/SqlSemAgg.lean` adds GROUP BY, the aggregate functions, bare columns and HAVING to the
+    trusted SQL semantics. For every data model, every query of the aggregate fragment (`inFragmentA`: group fields
+    without default and aggregates under distinct keys, WHERE filters on fields with literal / `null` / variable
+    values, HAVING filters on aggregate aliases with non-`null` values, `order_by` on selected group fields and on
+    aliases, no `first` / `skip` / cursors — the evaluator has none for grouped queries) and every data set in which
+    the fields under `min` / `max` store numbers or texts only (`aggDataOk`): the generated statement returns exactly
+    the evaluator's list of group rows, in the same order (groups that no `order_by` separates keep the order of their
+    first row in the data set on both sides). `avg` / `sum` (floats) are outside the evaluator and the theorem. -/
+theorem C05_compile_correct_agg (nm : Names) (s : Schema) (data : Data) (q : Query) (vn : Nat → String)
+    (env : String → Val) (fuel : Nat) (rootKey : String)
+    (hfrag : inFragmentA s q = true) (hdata : aggDataOk q data = true)
+    (hent : ∀ a b, nm.entShort a = nm.entShort b → a = b)
+    (hfld : ∀ a b, nm.fieldShort q.ent a = nm.fieldShort q.ent b → a = b)
+    (henv : ∀ i f, q.filters[i]? = some f → f.isParam = true → env (vn i) = f.value) :
+    SqlSem.runA (encode nm data) (compileA nm s vn q) env = Query.eval Defects.asImplemented s data fuel rootKey q :=
+  compileA_correct nm s data q vn env fuel rootKey hfrag hdata hent hfld henv
+
+/-- `P(f0 > 0, cnt >= $p0, order_by(f2 asc)) { f2 cnt: count() top: max(f0) }` over `schemaEx` / `dataEx` -/
+def queryAgg : Query :=
+  Query.mk 0 [.scalar "f2" 2, .agg "cnt" .count 0, .agg "top" .max 0]
+    [{ onAlias := false, fld := 0, op := .gt, value := .int 0, isParam := false, name := "f0" },
+     { onAlias := true, fld := 0, op := .ge, value := .int 1, isParam := true, name := "cnt" }]
+    [{ name := "f2", onAlias := false, fld := 2, desc := false }] 0 0 [] []
+
+example : inFragmentA schemaEx queryAgg = true ∧ aggDataOk queryAgg dataEx = true := by decide
+
+/-- rows 1-3 store no `f2`, row 5 an explicit `null`: one group of four (NULL key, first), row 4 a group of its own -/
+example :
+    (SqlSem.runA (encode nmEx dataEx) (compileA nmEx schemaEx (fun _ => "p0") queryAgg) (fun _ => .int 1)).map
+      (fun j => String.ofList (jsonChars 8 j)) =
+      ["{\"f2\":null,\"cnt\":4,\"top\":5}", "{\"f2\":true,\"cnt\":1,\"top\":4}"] := by
   decide
 
 end Discret.SqlCompile
